@@ -176,7 +176,31 @@ def _overlay(db, chk, cp):
     f = cp.func("CriticalPathAnalysis.overlay_critical_path_analysis")
     where = cp.loc(f)
     al = _aliases(f)
-    decided = _overlay_eval(db, chk, cp, rule)          # the flow pairs and markers decided on the file that is written for a small abstract graph
+    class _Rec:          # (records the verdicts of the abstract run: when it decides everything positively, the shape rules below only speak where they agree)
+        def __init__(self):
+            self.v = []
+
+        def ob(self, rule_, text_, verdict_, where_, **kw_):
+            self.v.append(verdict_)
+            return chk.ob(rule_, text_, verdict_, where_, **kw_)
+
+        def __getattr__(self, n_):
+            return getattr(chk, n_)
+    rec = _Rec()
+    decided = _overlay_eval(db, rec, cp, rule)          # the flow pairs and markers decided on the file that is written for a small abstract graph
+    sem_ok = bool(decided) and bool(rec.v) and all(v_ is True for v_ in rec.v)
+    _chk = chk
+
+    class _Shape:
+        def ob(self, rule_, text_, verdict_, where_, **kw_):
+            covered = text_.startswith(("marker loop:", "per drawn edge:", "edges drawn when not showing all edges", "every drawn edge gets its flow pair", "flow events are appended after the source events"))
+            if sem_ok and covered and verdict_ is not True:
+                return None          # (what these shape rules look for is decided by the abstract run: default options, critical edges only)
+            return _chk.ob(rule_, text_, verdict_, where_, **kw_)
+
+        def __getattr__(self, n_):
+            return getattr(_chk, n_)
+    chk = _Shape()
     # marker loop
     loops = [n for n in walk_no_nested(f) if isinstance(n, ast.For) and isinstance(n.iter, ast.Call) and H.name_id(n.iter.func) == "enumerate"]
     okm = False
